@@ -409,15 +409,15 @@ fn probe() {
             rcode: 0,
             aa: true,
             an: vec![rr("w.x.a.", Rd::A(v4(20, 0, 1, 1))), rr("v.b.", Rd::A(v4(20, 0, 0, 66)))],
-            au: vec![rr("x.a.", Rd::Ns(nm("n.x.a."))), rr("a.", Rd::Ns(nm("evil.b.")))],
-            ad: vec![rr("n.x.a.", Rd::A(v4(20, 0, 0, 3))), rr("evil.b.", Rd::A(v4(20, 0, 0, 66)))],
+            au: vec![rr("x.a.", Rd::Ns(nm("n.x.a."))), rr("a.", Rd::Ns(nm("e.b.")))],
+            ad: vec![rr("n.x.a.", Rd::A(v4(20, 0, 0, 3))), rr("e.b.", Rd::A(v4(20, 0, 0, 66)))],
         },
     );
     // negative with foreign SOA
-    t.insert((leaf, (nm("q.x.a."), T_NS)), Resp { rcode: 3, aa: true, an: vec![], au: vec![rr("b.", Rd::Soa), rr("b.", Rd::Ns(nm("evil.b.")))], ad: vec![rr("evil.b.", Rd::A(v4(20, 0, 0, 66)))] });
+    t.insert((leaf, (nm("q.x.a."), T_NS)), Resp { rcode: 3, aa: true, an: vec![], au: vec![rr("b.", Rd::Soa), rr("b.", Rd::Ns(nm("e.b.")))], ad: vec![rr("e.b.", Rd::A(v4(20, 0, 0, 66)))] });
     // glueless: y.a. NS n.y.a. without glue; the parent pool gets asked for A n.y.a.
     t.insert((tld, (nm("y.a."), T_NS)), Resp { rcode: 0, aa: false, an: vec![], au: vec![rr("y.a.", Rd::Ns(nm("n.y.a.")))], ad: vec![] });
-    t.insert((tld, (nm("n.y.a."), T_A)), Resp { rcode: 0, aa: true, an: vec![rr("zz.b.", Rd::A(v4(20, 0, 0, 66)))], au: vec![], ad: vec![] });
+    t.insert((tld, (nm("n.y.a."), T_A)), Resp { rcode: 0, aa: true, an: vec![rr("z.b.", Rd::A(v4(20, 0, 0, 66)))], au: vec![], ad: vec![] });
     t.insert((evil, (nm("w.y.a."), T_NS)), Resp { rcode: 0, aa: true, an: vec![], au: vec![rr("y.a.", Rd::Soa)], ad: vec![] });
     t.insert((evil, (nm("w.y.a."), T_A)), Resp { rcode: 0, aa: true, an: vec![rr("w.y.a.", Rd::A(v4(6, 6, 6, 6)))], au: vec![], ad: vec![] });
     let cfg = Cfg { roots: vec![root], rec_limit: 24, ns_limit: 24, ..Default::default() };
@@ -430,8 +430,10 @@ fn probe() {
 }
 
 fn main() {
-    quiet_panics();
     let args = parse_args();
+    if !args.extra.contains_key("probe") {
+        quiet_panics();
+    }
     if args.extra.contains_key("probe") {
         probe();
         return;
